@@ -127,11 +127,7 @@ func (x *Exec) ensureInit(pkg *ssa.Package) {
 	if init := pkg.Func("init"); init != nil {
 		saved := x.spec
 		x.spec = nil // initialisation is not part of any speculation
-		s0 := x.steps
 		x.call(nil, init, nil)
-		if os.Getenv("SYMGO_INITPROF") != "" {
-			fmt.Fprintf(os.Stderr, "init %s: %d steps\n", pkg.Pkg.Path(), x.steps-s0)
-		}
 		x.spec = saved
 	}
 }
